@@ -68,6 +68,14 @@ func (c11) Generate(r *sim.Rand, tier string) *sim.Scenario {
 		O = r.Range(5, 17)
 	}
 	batch := []int{1, 1, 2, 3, 4, 6, 1, 2, 5, 17, 24, 33}[r.Intn(12)]
+	hugeBatch := !wideLayer && r.Bool(0.0006)
+	if hugeBatch {
+		// one mini-batch of tens of thousands of samples through a tiny model
+		batch, D = r.Range(16500, 24000), r.Range(1, 2)
+		if O > 2 {
+			O = 1
+		}
+	}
 	if wideLayer {
 		batch = r.Range(1, 6) // keep the wide flavour cheap: small batches, few outputs, few steps
 		if O > 4 {
@@ -161,7 +169,10 @@ func (c11) Generate(r *sim.Rand, tier string) *sim.Scenario {
 	if wideLayer && nsteps > 6 {
 		nsteps = r.Range(1, 6)
 	}
-	long := !wideLayer && r.Bool(0.015)
+	if hugeBatch {
+		nsteps = r.Range(1, 2)
+	}
+	long := !wideLayer && !hugeBatch && r.Bool(0.015)
 	if long {
 		// a long training run on one model, one optimizer, one set of component
 		// objects (per-object state that only matters after many steps): small
@@ -179,7 +190,7 @@ func (c11) Generate(r *sim.Rand, tier string) *sim.Scenario {
 		sc.Steps = append(sc.Steps, st)
 	}
 	sc.Cfg["enum"] = 1
-	if long || wideLayer {
+	if long || wideLayer || hugeBatch {
 		sc.Cfg["enum"] = 0
 	}
 	return sc
